@@ -447,6 +447,34 @@ def check_scalars(ctx, subject, tf, x, r):
                sig=f"scalar!=array:{wname}", detail={"method": wname, "rel": worst})
 
 
+def check_buffer_reuse(ctx, subject, tf, x, r):
+    """Every method answers for the CURRENT contents of its argument: the same array object is passed twice,
+    refilled in place in between (a caller reusing a buffer); the second answer must equal the answer for a
+    fresh array with the same contents, bit for bit."""
+    worst, wname = 0.0, None
+    for name, arg in (("transform", x), ("deriv", x), ("deriv2", x), ("deriv3", x), ("inverse", r), ("deriv_inverse", r), ("deriv2_inverse", r), ("deriv3_inverse", r)):
+        if len(arg) < 2:
+            continue
+        fn = getattr(tf, name)
+        out = {}
+        with ctx.guard("answers-for-current-argument-values", subject + "." + name):
+            with np.errstate(all="ignore"):
+                buf = np.array(arg, dtype=float)
+                fn(buf)
+                buf[:] = arg[::-1]
+                out["second"] = _flat(fn(buf), len(arg))
+                out["fresh"] = _flat(fn(np.array(arg[::-1], dtype=float)), len(arg))
+        if "fresh" not in out:
+            continue
+        same = np.array_equal(out["second"], out["fresh"], equal_nan=True)
+        if not same:
+            fin = np.isfinite(out["fresh"]) & np.isfinite(out["second"])
+            dev = float(np.max(np.abs(out["second"][fin] - out["fresh"][fin]) / (np.abs(out["fresh"][fin]) + 1e-300))) if fin.any() else np.inf
+            if dev > worst or wname is None:
+                worst, wname = max(dev, 1e-300), name
+    ctx.check("answers-for-current-argument-values", subject, worst, 0.0, sig=f"stale-result-for-reused-array:{wname}", detail={"method": wname, "rel": worst})
+
+
 def check_endpoints(ctx, subject, hookcls, I, tf, ends):
     """transform(reference end point) == required image (array and scalar path)."""
     for x_ref, want, label in ends:
@@ -564,6 +592,7 @@ def run_case(ctx, family, params):
         if res is None:
             return
         check_scalars(ctx, I.name, tf, I.x[res["vi"]], res["r"][res["vi"]])
+        check_buffer_reuse(ctx, I.name, tf, I.x[res["vi"]], res["r"][res["vi"]])
         check_endpoints(ctx, I.name, CLS[I.kind], I, tf, endpoints(I))
         # range: images of the reference interval lie in the codomain
         lo, hi = tf.codomain
@@ -606,6 +635,7 @@ def run_case(ctx, family, params):
         if res is None:
             return
         check_scalars(ctx, name, inv, r[res["vi"]], res["r"][res["vi"]])
+        check_buffer_reuse(ctx, name, inv, r[res["vi"]], res["r"][res["vi"]])
         check_endpoints_inverse(ctx, name, I, inv, tf)
         if not res["any"]:
             ctx.trivial()
